@@ -1,5 +1,6 @@
 //! Run-time side of engine P: drives compiled programs over every input / history of the bound
 //! and compares with the reference evaluator.
+use crate::ast::*;
 use crate::families::{Unit, Variant};
 use crate::print::Printer;
 use crate::refeval::{self, Db, Tuple};
@@ -152,6 +153,12 @@ pub fn compare_model(cx: &mut Ctx, ui: usize, vi: usize, facts: &[Fact], got: &R
         Ok(rels) => {
             let mut ok = true;
             for &r in &u.observe {
+                if u.prog.rels[r].lat.is_some() && rels[r].len() != want.rels[r].len() && as_set(&rels[r]) == want.rels[r].tuples().into_iter().collect() {
+                    cx.rep.violate(format!("{}|{}|{}|{}|rows-per-lattice-key", prop, cx.family, u.tag, v.label),
+                        format!("{} [{}]: lattice {} has {} rows for {} keys on input {} -- program: {}", u.tag, v.label, u.prog.rels[r].name, rels[r].len(), want.rels[r].len(), case.get("input").to_string(), variant_items(&v).join(" ")),
+                        cx.replay_json(ui, &v, case.clone()));
+                    ok = false;
+                }
                 let g = as_set(&rels[r]);
                 let w: BTreeSet<Tuple> = want.rels[r].tuples().into_iter().collect();
                 if g != w {
@@ -171,7 +178,11 @@ pub fn compare_model(cx: &mut Ctx, ui: usize, vi: usize, facts: &[Fact], got: &R
 }
 
 fn mode_model(cx: &mut Ctx, prop: &str, only_unit: Option<usize>, only_input: Option<Vec<Fact>>) {
-    let (max_bits, budget) = if cx.thorough { (13, 9000) } else { (12, 4100) };
+    // input budget: a fixed number of runs per shard, spread over the shard's programs
+    let nprogs = (0..cx.units.len()).filter(|ui| !cx.makes(*ui).is_empty()).count().max(1);
+    let per_shard: usize = if cx.thorough { 8_000_000 } else { 800_000 };
+    let budget = (per_shard / nprogs).clamp(4100, 300_000);
+    let max_bits = (usize::BITS - budget.leading_zeros() - 1) as usize;
     let mut inputs_desc = String::new();
     for ui in 0..cx.units.len() {
         let makes = cx.makes(ui);
@@ -184,6 +195,10 @@ fn mode_model(cx: &mut Ctx, prop: &str, only_unit: Option<usize>, only_input: Op
         cx.rep.states += 1;
         let mut unit_nontrivial = false;
         let run_input = |facts: &Vec<Fact>, cx: &mut Ctx, unit_nontrivial: &mut bool| {
+            // a second input row for an existing lattice key is a caller-made duplicate (outside the premises)
+            for (i, (r, t)) in facts.iter().enumerate() {
+                if u.prog.rels[*r].lat.is_some() && facts[..i].iter().any(|(r2, t2)| r2 == r && t2[..t2.len() - 1] == t[..t.len() - 1]) { return; }
+            }
             let want = match refeval::eval(&u.prog, &db_of(&u, facts)) { Ok(d) => d, Err(e) => { cx.rep.machinery_error(format!("reference rejects unit {}: {:?}", ui, e)); return; } };
             let derived: usize = want.rels.iter().map(|r| r.len()).sum::<usize>();
             let given: usize = db_of(&u, facts).rels.iter().map(|r| r.len()).sum();
@@ -211,6 +226,228 @@ fn mode_model(cx: &mut Ctx, prop: &str, only_unit: Option<usize>, only_input: Op
         if cx.rep.samples.len() < 3 { let v = &u.variants[0]; cx.rep.sample(obj(vec![("program", variant_items(v).into()), ("inputs", sets.len().into()), ("tag", u.tag.clone().into())])); }
     }
     cx.rep.extra("inputs_per_program", inputs_desc);
+}
+
+/// C05: relations are sets, inputs are never lost. Evaluated on every input of the bound plus the
+/// same inputs with one fact given twice (duplicates the caller put in are the only allowed surplus).
+fn mode_c05(cx: &mut Ctx, only_unit: Option<usize>, only_input: Option<Vec<Fact>>) {
+    let nprogs = (0..cx.units.len()).filter(|ui| !cx.makes(*ui).is_empty()).count().max(1);
+    let per_shard: usize = if cx.thorough { 8_000_000 } else { 400_000 };
+    let budget = (per_shard / nprogs).clamp(4100, 300_000);
+    let max_bits = (usize::BITS - budget.leading_zeros() - 1) as usize;
+    for ui in 0..cx.units.len() {
+        let makes = cx.makes(ui);
+        if makes.is_empty() || only_unit.map_or(false, |o| o != ui) { continue; }
+        let u = cx.units[ui].clone();
+        let uni = universe(&u);
+        let (sets, desc) = input_sets(uni.len(), max_bits, budget);
+        cx.rep.extra("inputs_per_program", desc);
+        cx.rep.states += 1;
+        let mut run_input = |facts: &Vec<Fact>, cx: &mut Ctx| {
+            for (i, (r, t)) in facts.iter().enumerate() {
+                if u.prog.rels[*r].lat.is_some() && facts[..i].iter().any(|(r2, t2)| r2 == r && t2[..t2.len() - 1] == t[..t.len() - 1]) { return; }
+            }
+            cx.rep.states += 1;
+            cx.rep.evaluations += 1;
+            for (vi, make) in &makes {
+                let v = &u.variants[*vi];
+                let got = run_once(&u, v, *make, facts);
+                cx.rep.executions += 1;
+                cx.rep.transitions += 1;
+                let case = obj(vec![("input", J::Arr(facts.iter().map(|f| fact_json(&u, f)).collect()))]);
+                let mut bad = |what: &str, detail: String, cx: &mut Ctx| {
+                    cx.rep.violate(format!("C05|{}|{}|{}|{}", cx.family, u.tag, v.label, what),
+                        format!("{} [{}]: {} on input {} -- program: {}", u.tag, v.label, detail, case.get("input").to_string(), variant_items(v).join(" ")),
+                        cx.replay_json(ui, v, case.clone()));
+                };
+                match got {
+                    Err(p) => bad(&format!("panic|{}", panic_sig(&p)), format!("panicked: {}", p), cx),
+                    Ok(rels) => {
+                        let mut derived_dup_possible = false;
+                        for &r in &u.observe {
+                            let rows = &rels[r];
+                            let input_rows: Vec<&Tuple> = facts.iter().filter(|(fr, _)| *fr == r).map(|(_, t)| t).collect();
+                            let is_lat = u.prog.rels[r].lat.is_some();
+                            let keyof = |t: &Tuple| -> Tuple { if is_lat { t[..t.len() - 1].to_vec() } else { t.clone() } };
+                            // (3) the input vector is a prefix of the result vector (lattice rows: same key, value may only grow)
+                            if rows.len() < input_rows.len() || rows.iter().zip(&input_rows).any(|(a, b)| keyof(a) != keyof(b)) {
+                                bad("input-prefix-lost", format!("relation {}: input rows {:?} are not a prefix of the result rows {:?}", u.prog.rels[r].name, input_rows, rows), cx);
+                            }
+                            if is_lat {
+                                let ty = u.prog.rels[r].lat.as_ref().unwrap();
+                                for (a, b) in rows.iter().zip(&input_rows) {
+                                    if !vfn::code::leq(ty, b[b.len() - 1], a[a.len() - 1]) { bad("lattice-input-value-decreased", format!("relation {}: input row {:?} became {:?}", u.prog.rels[r].name, b, a), cx); }
+                                }
+                            }
+                            // (2)/(4) surplus rows = surplus rows of the input
+                            let distinct: BTreeSet<Tuple> = rows.iter().map(|t| keyof(t)).collect();
+                            let in_distinct: BTreeSet<Tuple> = input_rows.iter().map(|t| keyof(t)).collect();
+                            let surplus = rows.len() - distinct.len();
+                            let in_surplus = input_rows.len() - in_distinct.len();
+                            if surplus != in_surplus {
+                                bad(if is_lat { "second-row-for-lattice-key" } else { "duplicate-row" },
+                                    format!("relation {} has {} rows but {} distinct {} (input had {} surplus rows): {:?}", u.prog.rels[r].name, rows.len(), distinct.len(), if is_lat { "keys" } else { "tuples" }, in_surplus, rows), cx);
+                            }
+                            if rows.len() > input_rows.len() { derived_dup_possible = true; }
+                        }
+                        if derived_dup_possible { cx.rep.nontrivial += 1; }
+                    }
+                }
+            }
+        };
+        if let Some(inp) = &only_input { run_input(inp, cx); continue; }
+        for s in &sets {
+            let facts: Vec<Fact> = s.iter().map(|i| uni[*i].clone()).collect();
+            run_input(&facts, cx);
+            // the same input with one (non-lattice) fact given twice, at the front and at the back
+            if !facts.is_empty() && facts.len() <= 3 {
+                for d in 0..facts.len() {
+                    if u.prog.rels[facts[d].0].lat.is_some() { continue; }
+                    let mut f2 = facts.clone(); f2.push(facts[d].clone());
+                    run_input(&f2, cx);
+                    let mut f3 = vec![facts[d].clone()]; f3.extend(facts.iter().cloned());
+                    run_input(&f3, cx);
+                }
+            }
+        }
+        cx.rep.add_extra("programs", 1);
+        if cx.rep.samples.len() < 3 { let v = &u.variants[0]; cx.rep.sample(obj(vec![("program", variant_items(v).into()), ("inputs", sets.len().into()), ("tag", u.tag.clone().into())])); }
+    }
+}
+
+#[derive(Clone, Debug)]
+pub enum Step { Run, Add(Vec<Fact>) }
+
+/// runs a history on one instance, dumping all relations after every Run
+pub fn run_history(u: &Unit, v: &Variant, make: fn() -> Box<dyn Instance>, hist: &[Step]) -> Result<Vec<Vec<Vec<Tuple>>>, String> {
+    catch(|| {
+        let mut inst = make();
+        let mut snaps = vec![];
+        for s in hist {
+            match s {
+                Step::Add(fs) => for (r, t) in fs { inst.push(v.rel_map[*r], t); },
+                Step::Run => { inst.run(); snaps.push((0..u.prog.rels.len()).map(|r| inst.dump(v.rel_map[r])).collect()); }
+            }
+        }
+        snaps
+    })
+}
+
+fn has_agg_or_neg(p: &Prog) -> bool {
+    fn go(items: &[BodyItem]) -> bool { items.iter().any(|b| match b { BodyItem::Agg { .. } | BodyItem::Neg { .. } => true, BodyItem::Disj(a) => a.iter().any(|x| go(x)), _ => false }) }
+    p.rules.iter().any(|r| go(&r.body))
+}
+
+/// C13: run() is idempotent; monotone re-runs equal a fresh run on the union of all inputs
+fn mode_c13(cx: &mut Ctx, only_unit: Option<usize>, only_case: Option<(Vec<Fact>, Vec<Vec<Fact>>)>) {
+    let nprogs = (0..cx.units.len()).filter(|ui| !cx.makes(*ui).is_empty()).count().max(1);
+    let per_shard: usize = if cx.thorough { 6_000_000 } else { 500_000 };
+    let budget = (per_shard / nprogs).clamp(300, 100_000);
+    for ui in 0..cx.units.len() {
+        let makes = cx.makes(ui);
+        if makes.is_empty() || only_unit.map_or(false, |o| o != ui) { continue; }
+        let u = cx.units[ui].clone();
+        let uni = universe(&u);
+        let monotone = !has_agg_or_neg(&u.prog);
+        // initial inputs: all subsets up to the budget; additions: every single fact (and every pair in the thorough tier)
+        let adds: Vec<Vec<usize>> = {
+            let mut a: Vec<Vec<usize>> = (0..uni.len()).map(|i| vec![i]).collect();
+            if cx.thorough { for i in 0..uni.len() { for j in i + 1..uni.len() { a.push(vec![i, j]); } } }
+            a
+        };
+        let per_init = 1 + adds.len() * if cx.thorough { 2 } else { 1 };
+        let (sets, desc) = input_sets(uni.len(), 0, (budget / per_init).max(40));
+        cx.rep.extra("initial_inputs_per_program", desc);
+        cx.rep.extra("additions", format!("{} fact sets per run; history depth {}", adds.len(), if cx.thorough { 3 } else { 2 }));
+        cx.rep.states += 1;
+        let lat_key_clash = |facts: &[Fact]| -> bool {
+            facts.iter().enumerate().any(|(i, (r, t))| u.prog.rels[*r].lat.is_some() && facts[..i].iter().any(|(r2, t2)| r2 == r && t2[..t2.len() - 1] == t[..t.len() - 1]))
+        };
+        let mut run_case = |init: &Vec<Fact>, more: &Vec<Vec<Fact>>, cx: &mut Ctx| {
+            let mut all: Vec<Fact> = init.clone();
+            for m in more { all.extend(m.iter().cloned()); }
+            if lat_key_clash(&all) { return; }
+            // no caller-made duplicates: a fact is only added if it was not given before
+            for (i, f) in all.iter().enumerate() { if all[..i].contains(f) { return; } }
+            let mut hist = vec![Step::Add(init.clone()), Step::Run, Step::Run];
+            for m in more { hist.push(Step::Add(m.clone())); hist.push(Step::Run); }
+            // expected state after each run
+            let mut wants: Vec<Option<Db>> = vec![];
+            let mut acc = init.clone();
+            let w0 = refeval::eval(&u.prog, &db_of(&u, &acc)).ok();
+            wants.push(w0.clone()); wants.push(w0);
+            let mut cur_ref = wants[0].clone();
+            for m in more {
+                // a row for a lattice key the relation already holds is a caller-made duplicate key (outside C13's premises)
+                if let Some(cur) = &cur_ref {
+                    for (r, t) in m { if let crate::refeval::RelData::Lat(mm) = &cur.rels[*r] { if mm.contains_key(&t[..t.len() - 1]) { return; } } }
+                }
+                acc.extend(m.iter().cloned());
+                cur_ref = refeval::eval(&u.prog, &db_of(&u, &acc)).ok();
+                wants.push(if monotone { cur_ref.clone() } else { None });
+            }
+            cx.rep.states += 1;
+            cx.rep.evaluations += 1;
+            if !more.is_empty() { cx.rep.nontrivial += 1; }
+            for (vi, make) in &makes {
+                let v = &u.variants[*vi];
+                let got = run_history(&u, v, *make, &hist);
+                cx.rep.executions += 1;
+                cx.rep.transitions += hist.len() as u64;
+                let case = obj(vec![("input", J::Arr(init.iter().map(|f| fact_json(&u, f)).collect())),
+                                    ("adds", J::Arr(more.iter().map(|m| J::Arr(m.iter().map(|f| fact_json(&u, f)).collect())).collect()))]);
+                let hist_shape = if more.is_empty() { "run;run".to_string() } else { format!("run;run{}", ";add;run".repeat(more.len())) };
+                let mut bad = |what: &str, detail: String, cx: &mut Ctx| {
+                    cx.rep.violate(format!("C13|{}|{}|{}|{}|{}", cx.family, u.tag, v.label, hist_shape, what),
+                        format!("{} [{}] history {}: {} -- initial input {} additions {} -- program: {}", u.tag, v.label, hist_shape, detail, case.get("input").to_string(), case.get("adds").to_string(), variant_items(v).join(" ")),
+                        cx.replay_json(ui, v, case.clone()));
+                };
+                match got {
+                    Err(p) => bad(&format!("panic|{}", panic_sig(&p)), format!("panicked: {}", p), cx),
+                    Ok(snaps) => {
+                        // idempotence: second run leaves every relation unchanged as a set (all programs)
+                        for &r in &u.observe {
+                            if as_set(&snaps[0][r]) != as_set(&snaps[1][r]) {
+                                bad("second-run-changed-relation", format!("relation {} was {:?} after the first run and {:?} after the second", u.prog.rels[r].name, as_set(&snaps[0][r]), as_set(&snaps[1][r])), cx);
+                                break;
+                            }
+                        }
+                        // every run equals the reference on the union of inputs so far (monotone programs; first run: all programs)
+                        for (k, snap) in snaps.iter().enumerate() {
+                            let Some(w) = &wants[k] else { continue };
+                            for &r in &u.observe {
+                                let g = as_set(&snap[r]);
+                                let wset: BTreeSet<Tuple> = w.rels[r].tuples().into_iter().collect();
+                                if g != wset {
+                                    if k == 0 { break; } // a wrong first run is C01/C03/C04's finding, not C13's
+                                    bad(if k == 1 { "second-run-differs-from-fixpoint" } else { "rerun-differs-from-fresh-run" },
+                                        format!("after run #{} relation {} = {:?}, fresh run on all inputs gives {:?}", k + 1, u.prog.rels[r].name, g, wset), cx);
+                                    break;
+                                }
+                            }
+                        }
+                    }
+                }
+            }
+        };
+        if let Some((init, more)) = &only_case { run_case(init, more, cx); continue; }
+        for s in &sets {
+            let init: Vec<Fact> = s.iter().map(|i| uni[*i].clone()).collect();
+            run_case(&init, &vec![], cx);
+            for a in &adds {
+                let m: Vec<Fact> = a.iter().map(|i| uni[*i].clone()).collect();
+                run_case(&init, &vec![m.clone()], cx);
+                if cx.thorough && a.len() == 1 {
+                    for b in adds.iter().filter(|b| b.len() == 1 && b[0] > a[0]) {
+                        let m2: Vec<Fact> = b.iter().map(|i| uni[*i].clone()).collect();
+                        run_case(&init, &vec![m.clone(), m2], cx);
+                    }
+                }
+            }
+        }
+        cx.rep.add_extra("programs", 1);
+        if cx.rep.samples.len() < 3 { let v = &u.variants[0]; cx.rep.sample(obj(vec![("program", variant_items(v).into()), ("initial_inputs", sets.len().into()), ("additions", adds.len().into()), ("tag", u.tag.clone().into())])); }
+    }
 }
 
 /// entry point of every generated harness binary
@@ -246,6 +483,15 @@ pub fn main(family: &str, tier: &str, shard: usize, nshards: usize, table: &[Ent
     if cx.rep.machinery_errors.is_empty() {
         match mode.as_str() {
             "C01" | "C03" | "C04" => { let m = mode.clone(); mode_model(&mut cx, &m, only_unit, only_input) }
+            "C05" => mode_c05(&mut cx, only_unit, only_input),
+            "C13" => {
+                let case = replay.as_ref().map(|r| {
+                    let u = &cx.units[only_unit.unwrap()];
+                    let parse = |a: &J| -> Vec<Fact> { a.as_array().map(|a| a.iter().map(|f| (u.prog.rel(f.at(0).as_str().unwrap()), f.at(1).as_array().unwrap().iter().map(|x| x.as_i64().unwrap() as i32).collect())).collect()).unwrap_or_default() };
+                    (parse(r.get("case").get("input")), r.get("case").get("adds").as_array().map(|a| a.iter().map(|m| parse(m)).collect()).unwrap_or_default())
+                });
+                mode_c13(&mut cx, only_unit, case)
+            }
             other => cx.rep.machinery_error(format!("unknown mode {}", other)),
         }
     }
